@@ -115,6 +115,8 @@ func (m *Machine) invokeMethod(c *frame, recv Value, name string, args ...Value)
 	return m.call(c, 0, f, append([]Value{itf.V}, args...))
 }
 
+var marshalJSONModel stubFn
+
 func init() {
 	natives["github.com/gorilla/mux.SetURLVars"] = func(m *Machine, c *frame, fn *ssa.Function, a []Value) Value {
 		p := a[0].(*Value)
@@ -270,7 +272,15 @@ func init() {
 		if !ok {
 			m.unsupported("json.Encoder not created by json.NewEncoder")
 		}
-		r := m.invokeMethod(c, w, "Write", bytesOf("<json document>\n"))
+		// one document per call, followed by a newline; a struct is written as the
+		// handle json.Unmarshal resolves (see marshal below)
+		doc := bytesOf("<json document>\n")
+		if t, ok := marshalJSONModel(m, c, fn, a[1:]).(Tuple); ok {
+			if b, ok := t[0].([]Value); ok && len(b) == 9 {
+				doc = append(append([]Value{}, b...), sym.BVConst(8, '\n'))
+			}
+		}
+		r := m.invokeMethod(c, w, "Write", doc)
 		if t, ok := r.(Tuple); ok {
 			return t[1]
 		}
@@ -305,6 +315,7 @@ func init() {
 		}
 		return Tuple{bytesOf("<json document>"), Iface{}}
 	}
+	marshalJSONModel = marshal
 	natives["encoding/json.Marshal"] = marshal
 	natives["encoding/json.MarshalIndent"] = marshal
 
